@@ -145,7 +145,7 @@ def run(chk):
                     derived="%d slices of the frequency argument" % len(first), loc=r.fi.loc())
     a, b = summaries[DIRECT], summaries[MATRIX]
     chk.ob("R-KO-SIB", "calc_smooth_fa_spectrum~calc_smoothing_matrix_konno_1998", "matrix form and direct form have equal window summaries",
-           a == b and bool(a), derived="%s vs %s" % (a, b))
+           a == b and bool(a), derived="%s vs %s" % (a, b), inconclusive=(not a or not b))      # a summary that could not be extracted is not a difference
     check_forwarder(chk, "R-KO-SIB", "eqsig.fns.frequency.generate_smooth_fa_spectrum", DIRECT)
     check_forwarder(chk, "R-KO-SIB", SIG + ".generate_smooth_fa_spectrum", SIG + ".gen_smooth_fa_spectrum")
     # object level: roles of the arguments
@@ -211,6 +211,9 @@ def bandwidth_rules(chk):
         unmodelled_in(r, chk, "R-BW", c)
         inner = q if not q.endswith("get_sig_freq_range") else "eqsig.fns.frequency.get_sig_array_indexes_range"
         cm = [e for e in r.events("compare", inner) if ("p:ratio" in e.left.tags) != ("p:ratio" in e.right.tags)]
+        cm = list({id(e.node): e for e in cm}.values())          # one comparison evaluated in several loop passes is one comparison
+        # the other side is the spectrum (an amplitude): tests of positions found under the mask carry the ratio only as control provenance
+        cm = [e for e in cm if alg_degree((e.left if "p:ratio" in e.right.tags else e.right).a(R)) == Exp(1)] or cm
         if len(cm) != 1:
             chk.ob("R-BW", c + "{mask}", "one comparison against max*ratio", False, derived="%d" % len(cm), loc=r.fi.loc(), inconclusive=not cm)
             continue
@@ -236,6 +239,13 @@ def bandwidth_rules(chk):
         vals = list(r.ret.items) if r.ret.items is not None else [r.ret]
         if len(vals) != len(outs):
             chk.ob("R-BW", c + "{results}", "%d result(s)" % len(outs), False, derived="%d" % len(vals), loc=r.fi.loc())
+            continue
+        if not any(x.index.kind == K_SCALAR and (x.index.ext is not None or "where-index" in x.base.tags or "where-index" in x.index.tags)
+                   for x in r.events("subscript")):
+            # no element is read at the first / last entry of an ascending index array anywhere: the limits are found some other way
+            # (an explicit scan ...), which this rule does not follow
+            chk.ob("R-BW", c + "{ends}", "the limits are the first / last entry of one ascending index array of the mask", False,
+                   derived="no read at an end of an index array in this design", inconclusive=True, loc=r.fi.loc())
             continue
         for v, which in zip(vals, outs):
             has, hasnot = ("at:lo", "at:hi") if which == "first" else ("at:hi", "at:lo")
